@@ -50,7 +50,7 @@ Inductive request :=
 | RData (k : N) (pid : Z) (data : tok) (created : Z)     (* commit / deal / response confirmation, phase k *)
 | RMaster (pid : Z) (key : tok) (poly : tok) (created : Z)
 | RError (pid : Z) (err : option tok) (created : Z)      (* DKGProposalConfirmationErrorRequest *)
-| RSigError (pid : Z) (err : option tok) (created : Z)   (* SignatureProposalConfirmationErrorRequest *)
+| RSigError (pid : Z) (err : option tok) (created : Z) (batch : tok)   (* SignatureProposalConfirmationErrorRequest; batch 0 = the report names no batch (older versions) *)
 | RStart (batch : tok) (pid : Z) (created : Z) (tasks : list task_v) (src : tok)
 | RPartial (batch : tok) (pid : Z) (signs : list (tok * tok)) (created : Z)
 | RBad.                                                  (* the error value returned on a JSON error *)
